@@ -399,6 +399,7 @@ func init() {
 		Rule: "operation sets {Call,Call}, {Call,Batch[c,n,c]}, {Batch[c,c],Call}, {Call,Call,Call}, {Batch[n,c,n]}, {Batch[n,c],Call}, {Batch[c,n,c],Batch[n,c]}, {Call, Batch that fails to encode after another request was created, Call, Call} against a raw peer; reply streams = every permutation of the replies x every partition into records (objects / arrays) " +
 			"x one extra item {duplicate reply, malformed member with a pending id, unknown id, string spelling of a pending numeric id, server notification, server callback, non-object member} at every position, x one reply omitted; " +
 			"records are delivered with a settle in between (first reply wins) or back to back (any reply sent for the id), plus delay-bounded schedules and seeded random streams with up to 24 outstanding requests. " +
+			"every Response handed back for a failed call must be a pure error (no result, JSON form an error object). " +
 			"distinct_nontrivial = distinct (operations, stream, mode, delay set) with at least two replies",
 		Assumptions: []string{
 			"Go 1.26.8 runtime and testing/synctest quiescence",
